@@ -10,6 +10,7 @@ d-invalidation  cached monodromy/stability entries and recorded slots are droppe
 
 c (round 3)  the wrapper is built by its own constructor (attribute names are the class's business); every literal name a direction-aware
    integrator reads with getattr(system, name, 1) is an attribute that constructor stores;  d-mu: C01's system wiring re-filed
+d-period (round 4)  family members carry the period of their own correction (C13.f) and an assigned period takes effect however close to the old one (C05.d), re-filed
 """
 from __future__ import annotations
 
@@ -101,6 +102,12 @@ def run(tier):
 
     # ------------------------------------------------------------ C03.d
     _wiring(chk)
+    # the span the monodromy is taken over is the orbit's own period: family members carry the period of their own correction (C13.f), and
+    # a period assigned to an orbit takes effect however close it is to the old one (C05.d)
+    from . import c13, c05
+    from .common import Relabel
+    c13._f_members(Relabel(chk, {"C13.f": "C03.d-period", "C13.b": "C03.d-period"}))
+    c05._d_period_setter(Relabel(chk, {"C05.d": "C03.d-period"}))
     return chk
 
 
